@@ -249,6 +249,9 @@ def run_binding(case, seed):
             if variant == "san" and sanit:
                 first = next((l for l in se.splitlines() if "ERROR" in l or "runtime error" in l), se[-300:])
                 return dict(ok=False, sig="C13/sanitizer", msg="ASan/UBSan build reports: %s" % first[:300], transitions=len(jobs))
+            if pr.returncode < 0:
+                return dict(ok=False, sig="C13/crash/%s-build" % variant, transitions=len(jobs),
+                            msg="%s build with OMP_NUM_THREADS=%d died with signal %d while running the kernel scenarios" % (variant, n, -pr.returncode))
             raise RuntimeError("binding worker %s/%d failed rc=%d: %s" % (variant, n, pr.returncode, se[-800:]))
         res[(variant, n)] = dict(np.load(outp))
     import shutil
